@@ -64,6 +64,7 @@ o${loop.index}\\
 % endfor
 b</%def>
 <%def name="s_bufblock()">a<%block buffered="True">k[${probe(19)}]</%block>b</%def>
+<%def name="s_foreign()">a<% other.render_context(context) %>b</%def>
 <%def name="s_pydef()">a<%call expr="pydef(context)">c${probe(18)}</%call>b</%def>
 <%def name="who()">${caller.body() if caller else 'none'}</%def>
 '''
@@ -95,6 +96,7 @@ SITES = {
     "s_callargs": ("aA[r#13#]b", {13: "aA["}),
     "s_nscall": ("aW[#4#n#14#z#5#]b".replace("z", ""), {4: "aW[", 14: "aW[#4#n", 5: "aW[#4#n#14#"}),
     "s_bufblock": ("ak[#19#]b", {19: "a"}),
+    "s_foreign": ("aN[#20#]b", {20: "aN["}),
     "s_pydef": ("aY[#16#c#18##17#]b", {16: "aY[", 18: "aY[#16#c", 17: "aY[#16#c#18#"}),
     "s_loopiter": ("a000o0100o1b".replace("000o0100o1", "0" + "00" + "o0" + "1" + "01" + "o1"), {(15, 1): "a0", (15, 2): "a000o01"}),
 }
@@ -126,6 +128,16 @@ def template(LK):
     return _T["t"]
 
 
+def foreign_template():
+    """a template that belongs to ANOTHER lookup, rendered into the running context by other.render_context(context)"""
+    if "other" not in _T:
+        import mako.lookup as _LK
+        lk2 = _LK.TemplateLookup()
+        lk2.put_string("foreign", "N[${probe(20)}]")
+        _T["other"] = lk2.get_template("foreign")
+    return _T["other"]
+
+
 def make_data(p, raise_id, raise_occ):
     """context data: probe() raises at the symbolic point (raise_id is a z3 Int, 0 = nowhere; raise_occ the occurrence)"""
     seen = {}
@@ -146,7 +158,8 @@ def make_data(p, raise_id, raise_occ):
             return ""
         return decorate
 
-    return dict(probe=probe, up=lambda s: s.upper(), tf=lambda s: probe(9) + s.lower(), dec=dec, Boom=Boom, items=lambda marker: (7,)), seen
+    return dict(probe=probe, up=lambda s: s.upper(), tf=lambda s: probe(9) + s.lower(), dec=dec, Boom=Boom, items=lambda marker: (7,),
+                other=foreign_template()), seen
 
 
 def step(p, RT, LK, UT, site, with_exception, hosted=False):
@@ -178,7 +191,7 @@ def step(p, RT, LK, UT, site, with_exception, hosted=False):
         ctx.caller_stack.append(s)
     nxt = types.SimpleNamespace(body=_hb, tag="pending") if pending else None
     ctx.caller_stack.nextcaller = nxt
-    pre = dict(buffers=len(ctx._buffer_stack), callers=list(ctx.caller_stack), nextcaller=ctx.caller_stack.nextcaller)
+    pre = dict(buffers=len(ctx._buffer_stack), callers=list(ctx.caller_stack), nextcaller=ctx.caller_stack.nextcaller, with_template=ctx._with_template)
     fn = getattr(t.module, "render_" + ("h_" if hosted else "") + site)
     ret = exc = None
     raised = []
@@ -187,7 +200,7 @@ def step(p, RT, LK, UT, site, with_exception, hosted=False):
         ret = fn(ctx)
     except Exception as e:
         exc = e
-    post = dict(buffers=len(ctx._buffer_stack), callers=list(ctx.caller_stack), nextcaller=ctx.caller_stack.nextcaller)
+    post = dict(buffers=len(ctx._buffer_stack), callers=list(ctx.caller_stack), nextcaller=ctx.caller_stack.nextcaller, with_template=ctx._with_template)
     contents = [b.getvalue() for b in ctx._buffer_stack]
     # continue rendering from the post-state: a later construct must behave as from a fresh state
     later = later_exc = None
